@@ -9,9 +9,9 @@ pc.install(globals(), "C13", "C13", "throttling",
           "(<= 2*ops+1+c) and, for steady schedules, element i's delivery time in [floor(i/ops)*interval, +interval]. Distinct by full "
           "observed trace; non-trivial when a value was delivered"),
     claim={
-        "text": "Theorems proved by the Coq kernel for every ops, interval, capacity, arrival pattern, consumer pace and any clock advance policy: exactly the input elements in order once each, closes when the input closes, no panic, no deadlock (only the pacer's timer is waited for), the pacer pushes at most ops tokens per interval counted from the start (tokens by time t <= ops*(t/interval+1)), and before cancel the token channel stays open and every delivery (received from or buffered in the output, plus the element the data goroutine holds after its token receive) has consumed a token, so deliveries by time t <= ops*(t/interval+1) as well (C13_deliveries_le_tokens, C13_deliveries_rate). PARTIAL: the sliding-window bound 2*ops+1+c and the exact schedule under maximal progress are not theorems; the correspondence oracle checks them on every explored virtual-time schedule.",
+        "text": "Theorems proved by the Coq kernel for every ops, interval, capacity, arrival pattern, consumer pace and any clock advance policy: exactly the input elements in order once each, closes when the input closes, no panic, no deadlock (only the pacer's timer is waited for), the pacer pushes at most ops tokens per interval counted from the start (tokens by time t <= ops*(t/interval+1)), and before cancel the token channel stays open and every delivery (received from or buffered in the output, plus the element the data goroutine holds after its token receive) has consumed a token, so deliveries by time t <= ops*(t/interval+1) as well (C13_deliveries_le_tokens, C13_deliveries_rate). The sliding window is a theorem too: between two points of one run less than interval apart the pacer pushes at most ops tokens (C13_tokens_window) and, before cancel, the consumer receives at most ops + cap(ctl) + 1 + cap(out) elements (C13_window), i.e. no half-open window [t, t+interval) sees more than 2*ops+1+c deliveries with the channels pipe.Throttling makes (C13_window_go); the bound is attained (C13_window_tight) and the closed window [t, t+interval] is not bounded by it (C13_closed_window_refuted: two pacer rounds fit). Element i is never available before floor(i/ops)*interval (C13_delivery_not_early). PARTIAL only for the upper half of the exact schedule (element i no later than one interval after floor(i/ops)*interval under maximal progress with input always available), which is not a theorem; the correspondence oracle checks it on every explored steady virtual-time schedule.",
         "design_ref": "DESIGN.md 3/C13",
-        "note": "Trusted: Coq kernel; Pool machine with virtual clock; testing/synctest's fake clock. The window bound and the steady schedule rest on differential testing + oracle only.",
-        "technique": "Coq proof (stream, token-rate and deliveries<=tokens invariants) + trace-acceptance correspondence and rate oracle on virtual time",
+        "note": "Trusted: Coq kernel; Pool machine with virtual clock; testing/synctest's fake clock. The window bound is a theorem about the Pool machine (and is also recomputed by the oracle over the observed receive time stamps); only the upper half of the steady schedule rests on differential testing + oracle.",
+        "technique": "Coq proof (stream, token-rate, deliveries<=tokens and sliding-window invariants) + trace-acceptance correspondence and rate oracle on virtual time",
     },
     assumptions=["virtual clock of testing/synctest; ops >= 1"])
